@@ -324,11 +324,11 @@ func runC19(c *Ctx) {
 	// ================= R4 =================
 	c.floor("C19.R4", 4)
 	want := "[[8] [15 16] [24 32]]"
-	for _, fn := range m.Funcs {
+	for _, fn := range m.scanFuncs() {
 		if fn.Pkg != pkg {
 			continue
 		}
-		g := newIG(m, fn, nil)
+		g := scanIG(m, fn, nil)
 		groups := map[int][]uint64{}
 		for _, f := range g.AllEdgeFacts() {
 			if f.Y == nil || f.Op != token.EQL || !isLoadOfField(f.X, bppF) {
@@ -364,11 +364,11 @@ func runC19(c *Ctx) {
 			// code of this arm: reachable from tgt without passing another bpp test; painters called from it
 			var armFns []*ssa.Function
 			r := g.Reach([]int{tgt}, nil, func(n int) bool {
-				ifi, ok := g.Ins[n].(*ssa.If)
+				_, ok := g.Ins[n].(*ssa.If)
 				if !ok {
 					return false
 				}
-				f, _ := condFact(ifi.Cond, true)
+				f, _ := condFact(g.Cond(n), true)
 				return f.X != nil && isLoadOfField(f.X, bppF)
 			})
 			maxOff := int64(-1)
